@@ -347,7 +347,7 @@ func (r *Runner) resolveCallExpression(ctx context.Context, expr *CallExpression
 		}
 	}
 	// the function must be declared as func(...) (value, error)
-	if funType.NumOut() != 2 || !funType.Out(1).Implements(reflect.TypeOf((*error)(nil)).Elem()) {
+	if funType.NumOut() != 2 || funType.Out(1) != reflect.TypeOf((*error)(nil)).Elem() {
 		return nil, fmt.Errorf("call function '%s' error: must return (value, error)", name)
 	}
 	// 调用函数
